@@ -10,6 +10,7 @@ import AvroModel.Drv.Conc
 import AvroModel.Drv.SchemaGen
 import AvroModel.Drv.File
 import AvroModel.Drv.Schema
+import AvroModel.Drv.Typing
 open Avro Avro.Sexp Avro.Drv
 
 def dispatch (prop : String) (op : String) (args : List Sexp) : Verdict :=
@@ -33,6 +34,8 @@ def dispatch (prop : String) (op : String) (args : List Sexp) : Verdict :=
   | "C07" => c07 op args
   | "C08" => c08 op args
   | "C14" => c14 op args
+  | "C05" => c05 op args
+  | "C11" => c11 op args
   | _ => .bad s!"unknown property {prop}"
 
 partial def loop (prop : String) (h : IO.FS.Stream) (out : IO.FS.Stream) : IO Unit := do
